@@ -169,7 +169,10 @@ CHECKS["C08"] = dict(
     technique="Coq proof (engine frame theorem, single-member refinement) + vm_compute correspondence of the Hexital model + falsifier", design="5/C08")
 CHECKS["C09"] = dict(
     text="Theorems over the reals: no step of the TR, ATR, HLA, OBV, VWAP, EMA recurrence can raise (every divisor non-zero), RSI never "
-         "divides by a zero loss. " + ENGINE_TIE + "Falsifier: degenerate regimes (flat, monotone, equal closes, tiny/micro moves, zero "
+         "divides by a zero loss; at the level of whole series, on every stream the specifications of TR, ATR, HLA, OBV, VWAP and - given the "
+         "input on every candle - SMA, EMA, RMA, WMA, RSI return a series as long as the stream, made of None and numbers only, with no gap "
+         "once a number has appeared (state invariants: SMA's window, RSI's non-negative averages; RMA's seed divisor >= 1); ROC does so "
+         "when no input is zero, and a zero base is refuted with a witness (K1). " + ENGINE_TIE + "Falsifier: degenerate regimes (flat, monotone, equal closes, tiny/micro moves, zero "
          "volume, fill candles): no exception, all values finite, no gap after the first value of each output field.",
     note="Finiteness is immediate in R; binary64 overflow is outside the theorem. Other kinds: correspondence (exceptions compared as an "
          "enum) + falsifier. Known finding K1 (ROC over a zero-valued input). Real-number axioms as for C04.",
